@@ -100,7 +100,7 @@ class Schema2DF(Schema2Base):
                 else tag_entry.short_tag_name + "-#",
             constants.subclass_of: self._get_subclass_of(tag_entry),
             constants.attributes: self._format_tag_attributes(tag_entry.attributes),
-            constants.description: tag_entry.description,
+            constants.description: tag_entry.description or "",
             constants.equivalent_to: self._get_tag_equivalent_to(tag_entry),
         }
         # Todo: do other sections like this as well for efficiency
@@ -123,7 +123,7 @@ class Schema2DF(Schema2Base):
             constants.name: entry.name,
             constants.subclass_of: self._get_subclass_of(entry),
             constants.attributes: self._format_tag_attributes(entry.attributes),
-            constants.description: entry.description,
+            constants.description: entry.description or "",
             constants.equivalent_to: self._get_tag_equivalent_to(entry),
         }
         # Handle the special case of units, which have the extra unit class
@@ -201,7 +201,7 @@ class Schema2DF(Schema2Base):
             constants.property_domain: domain_string,
             constants.property_range: range_string,
             constants.properties: self._format_tag_attributes(entry.attributes) if include_props else "",
-            constants.description: entry.description,
+            constants.description: entry.description or "",
         }
         df.loc[len(df)] = new_row
 
@@ -214,7 +214,7 @@ class Schema2DF(Schema2Base):
             constants.hed_id: f"{tag_id}",
             constants.name: entry.name,
             constants.property_type: property_type,
-            constants.description: entry.description,
+            constants.description: entry.description or "",
         }
         df.loc[len(df)] = new_row
 
